@@ -448,6 +448,16 @@ func (b *B) Bin(op Op, x, y *T) *T {
 				return b.Const(w, 0)
 			}
 		}
+		// same for a zero-extended factor: zext(a) * c with a of at most 32 bits and 0 < c < 2^31
+		// stays below 2^63, so signed and unsigned division by c give zext(a) back, remainder 0
+		if (op == OSDiv || op == OSRem || op == OUDiv || op == OURem) && y.Op == OConst && x.Op == OMul && x.B == y && x.A.Op == OZExt && x.A.A.W <= 32 && w == 64 {
+			if y.V > 0 && y.V < (1<<31) {
+				if op == OSDiv || op == OUDiv {
+					return x.A
+				}
+				return b.Const(w, 0)
+			}
+		}
 		// (a-b)+b -> a
 		if op == OAdd {
 			if x.Op == OSub && x.B == y {
